@@ -166,6 +166,7 @@ if (jcol == BADPAN)
 	pmod = Gstat->procstat[pnum].fcops;
 #endif
 	    
+	SLU_MT_VERIF_EVENT(SLU_EV_UPD_BEGIN, pnum, jcol, fsupc, krep, 0);
 	if ( nsupc >= colblk && nrow >= rowblk ) {
 	    /* 2-D block update */
 #ifdef GEMV2
@@ -190,6 +191,7 @@ if (jcol == BADPAN)
 #endif
 	}
 	
+	SLU_MT_VERIF_EVENT(SLU_EV_UPD_END, pnum, jcol, fsupc, krep, 0);
 #ifdef PREDICT_OPT
 	pmod = Gstat->procstat[pnum].fcops - pmod;
 	kid = (Glu->pan_status[krep].size > 0) ?
@@ -251,6 +253,7 @@ if (jcol == BADPAN)
 #ifdef PROFILE
 	    TIC(t1);
 #endif
+	    SLU_MT_VERIF_EVENT(SLU_EV_WAIT, pnum, jcol, kcol, 0, 0);
 	    await( &pxgstrf_shared->spin_locks[kcol] );
 
 #ifdef PROFILE
@@ -286,6 +289,7 @@ if (jcol == BADPAN)
 #ifdef PROFILE
 		TIC(t1);
 #endif
+		SLU_MT_VERIF_EVENT(SLU_EV_WAIT, pnum, jcol, kcol, 0, 0);
 		await ( &pxgstrf_shared->spin_locks[kcol] );
 
 #ifdef PROFILE
@@ -386,6 +390,7 @@ printf("(%d) pzgstrf_panel_bmod[fills] xlsub %d, xlsub_end %d, #lsub[%d] %d\n",
 	nsupc = krep - fsupc + 1;
 	nsupr = xlsub_end[fsupc] - xlsub[fsupc];
 	nrow = nsupr - nsupc;
+	SLU_MT_VERIF_EVENT(SLU_EV_UPD_BEGIN, pnum, jcol, fsupc, krep, 0);
 	if ( nsupc >= colblk && nrow >= rowblk ) {
 	    /* 2-D block update */
 #ifdef GEMV2
@@ -410,6 +415,7 @@ printf("(%d) pzgstrf_panel_bmod[fills] xlsub %d, xlsub_end %d, #lsub[%d] %d\n",
 #endif
 	}
 
+	SLU_MT_VERIF_EVENT(SLU_EV_UPD_END, pnum, jcol, fsupc, krep, 0);
 #ifdef PREDICT_OPT
 	pmod = Gstat->procstat[pnum].fcops - pmod;
 	kid = (pxgstrf_shared->pan_status[krep].size > 0) ?
